@@ -15,6 +15,7 @@ C01.dict   dictionary sizes stay below the control bytes
 C01.eq     ProtocolTreeNode.__eq__ compares every component and matches children in both directions
 """
 import ast
+import os
 import re
 
 from .. import bits, linear
@@ -363,6 +364,13 @@ def chars_source(v, string_results, depth=0):
         m = v[2][1]
         if isinstance(m, tuple) and m[0] == "fn" and m[1] == "map" and len(m[2]) == 2 and m[2][0] == ("ext", "chr", []):
             return m[2][1]
+        return None
+    if v[0] in ("ext", "fn") and v[1] in (".decode()", "decode") and len(v[2]) == 2:
+        # bytes(X).decode('latin-1'): one character per byte, code point = byte value
+        codec = [x for x in v[2] if x[0] == "c" and isinstance(x[1], str)]
+        rest = [x for x in v[2] if not (x[0] == "c" and isinstance(x[1], str))]
+        if len(codec) == 1 and len(rest) == 1 and codec[0][1].lower() in LATIN1:
+            return bytes_source(rest[0], string_results)
         return None
     if v[0] == "fn" and v[1] == "readString()" and v[2] and v[2][0][0] == "c" and string_results is not None:
         outs = string_results(v[2][0][1])
@@ -1250,6 +1258,12 @@ def rule_unpack(ctx, tables):
             w = where(DEC, "ReadDecoder.readPacked8", rp.lineno)
             label = "kind %d, odd-length flag %d" % (kind, flag)
             bad = None
+            # decided by executing the reader on concrete packed strings (every string the writer can emit for the
+            # header bytes tried); the walk over the source below is the fallback when the execution cannot be followed
+            ex = reader_exec(ctx, dec, rp, kind, flag, pack, [1, 2, 3] if ctx.tier != "thorough" else [1, 2, 3, 4, 64, 127])
+            if ex[0] == "decided":
+                ctx.check("C01.unpack", ex[1] is None, w, label, ex[1] or "", "the reader returns exactly the symbols the writer packed (%d packed strings executed)" % ex[2])
+                continue
             try:
                 for c in counts:
                     res = PackedWalk(ctx, dec, rp, kind, (flag << 7) | c).run()
@@ -1261,6 +1275,46 @@ def rule_unpack(ctx, tables):
                 ctx.undecided("C01.unpack", w, label, str(e))
                 continue
             ctx.check("C01.unpack", not bad, w, label, bad or "", "every data nibble is mapped through the kind's unpack table, the filler is dropped iff the flag is set (%d header bytes)" % len(counts))
+
+
+def reader_exec(ctx, dec, rp, kind, flag, pack, counts):
+    """readPacked8 executed on concrete frames: for `count` packed bytes, every pair of nibbles the writer can emit in the
+    last byte (the filler 15 as the low nibble iff the flag is set) behind a fixed prefix of data nibbles
+    -> ('decided', problem or None, number of frames) | ('unknown', why)"""
+    from ..consts import run_const
+    inv = {}
+    for n, v in pack.items():
+        inv.setdefault(v, n)
+    nibs = sorted(inv)
+    if not nibs:
+        return ("unknown", "no symbols")
+    nframes = 0
+    for c in counts:
+        prefix = [nibs[(3 * i + 1) % len(nibs)] for i in range(2 * (c - 1))]
+        lasts = [(a, 15) for a in nibs] if flag else [(a, b) for a in nibs for b in nibs]
+        if c > 3:
+            lasts = lasts[::7]
+        for a, b in lasts:
+            body = prefix + [a, b]
+            frame = [(flag << 7) | c] + [(body[2 * i] << 4) | body[2 * i + 1] for i in range(c)]
+            r = run_const(ctx.repo, dec, rp, [kind, frame])
+            nframes += 1
+            if r[0] == "unknown":
+                return ("unknown", r[1])
+            want = [inv[x] for x in (body[:-1] if flag else body)]
+            if r[0] == "raise":
+                return ("decided", "the packed string %s (header 0x%02x, kind %d) makes the reader raise %s" % (bytes(frame[1:]).hex(), frame[0], kind, r[1][:60]), nframes)
+            got = r[1]
+            if isinstance(got, (bytes, bytearray)):
+                got = list(got)
+            if isinstance(got, str):
+                got = [ord(x) for x in got]
+            if isinstance(got, list):
+                got = [ord(x) if isinstance(x, str) and len(x) == 1 else x for x in got]
+            if got != want:
+                return ("decided", "the packed string %s (header 0x%02x, kind %d) holds %r but the reader returns %r" % (
+                    bytes(frame[1:]).hex(), frame[0], kind, "".join(map(chr, want)), "".join(map(chr, got)) if isinstance(got, list) and all(isinstance(x, int) and 0 <= x < 256 for x in got) else got), nframes)
+    return ("decided", None, nframes)
 
 
 def unpack_obligation(res, kind, flag, count, symbols, HEXU, HEXL):
@@ -1323,7 +1377,108 @@ def canon_cond(e):
     return ("truth", unparse(e), pol)
 
 
+def count_scenarios(ctx):
+    """abstract execution of WriteEncoder.writeInternal on concrete abstract nodes (attributes None / 0..2 entries, content
+    none / bytes / children): the number handed to writeListStart against the items actually written.
+    -> list of (label, announced, written, problem) or None when the execution cannot be followed"""
+    from ..absint import Interp, _Raise, Budget, NeedAtom, DomainGrew, C_NONE, Obj, _Return
+    repo = ctx.repo
+    enc = repo.cls(ENC, "WriteEncoder")
+    ptn = repo.cls(PTN, "ProtocolTreeNode")
+    fn = repo.method(ENC, "WriteEncoder", "writeInternal")
+    out = []
+    for nattr in (None, 0, 1, 2):
+        for content in ("none", "data", "empty data", "children"):
+            calls = []
+
+            def rec(name):
+                def h(itp, recv, a, k, env, d, e):
+                    calls.append((name, a))
+                    return C_NONE
+                return h
+            def raw_node(itp, c, args, kwargs, env, depth, e):
+                # the node class itself, interpreted (not the interpreter's stanza model): its constructor decides what
+                # `attributes`, `children` and `hasChildren()` are for the encoder
+                if c is not ptn:
+                    return None
+                ob = Obj(c)
+                k, init = repo.find_method(c, "__init__")
+                try:
+                    itp.call_function(init, k, ("obj", ob), args, kwargs, depth=depth + 1)
+                except _Return:
+                    pass
+                return ("obj", ob)
+            hooks = {"method:writeString": rec("item"), "method:writeBytes": rec("item"), "method:writeList": rec("item"),
+                     "method:writeListStart": rec("start"), "method:writeInternal": rec("node"), "construct": raw_node}
+            it = Interp(repo, {}, {}, hooks=hooks)
+            label = "attributes %s, content %s" % ("omitted" if nattr is None else nattr, content)
+            try:
+                o = it.construct(enc, [("ext", "tokdict", [])], {}, {"@module": enc.module, "@owner": None}, 0, None)
+                attrs = C_NONE if nattr is None else ("dict", dict(("k%d" % i, ("c", "v%d" % i)) for i in range(nattr)))
+                child = it.construct(ptn, [("c", "c")], {}, {"@module": ptn.module, "@owner": None}, 0, None)
+                kids = ("list", [child]) if content == "children" else C_NONE
+                data = ("c", b"xy") if content == "data" else ("c", b"") if content == "empty data" else C_NONE
+                node = it.construct(ptn, [("c", "t"), attrs, kids, data], {}, {"@module": ptn.module, "@owner": None}, 0, None)
+                it.call_function(fn, enc, o, [node, ("list", [])][:len(params_of(fn))], {}, depth=0)
+            except _Raise as r:
+                out.append((label, None, None, "raises %s" % r.text[:80]))
+                continue
+            except (NeedAtom, Budget, DomainGrew, LookupError, TypeError, KeyError, AttributeError) as x:
+                if os.environ.get('SA_DEBUG'):
+                    raise
+                return None
+            def size_of(a):
+                return a[0][1] if a and a[0][0] == "c" and isinstance(a[0][1], int) else None
+            if not calls or calls[0][0] != "start" or size_of(calls[0][1]) is None:
+                if os.environ.get('SA_DEBUG'):
+                    raise LookupError("%s: %s" % (label, calls))
+                return None
+            announced = size_of(calls[0][1])
+            written, i, prob = 0, 1, None
+            while i < len(calls):
+                name, a = calls[i]
+                i += 1
+                if name == "item":
+                    written += 1
+                elif name == "start":              # a child list: its header and that many nodes are one item
+                    m = size_of(a)
+                    j = i
+                    while j < len(calls) and calls[j][0] == "node":
+                        j += 1
+                    if m is None:
+                        return None
+                    if j - i != m:
+                        prob = "the child list announces %d node(s) and %d follow" % (m, j - i)
+                    written += 1
+                    i = j
+                else:
+                    prob = "a child node is written outside a child list"
+            want = 1 + 2 * (nattr or 0) + (0 if content == "none" else 1)
+            if prob is not None:
+                pass
+            elif announced != written:
+                prob = "the list header announces %d item(s) but %d are written" % (announced, written)
+            elif written != want:
+                prob = "%d item(s) written, the format wants %d (tag, key and value per attribute, one content item)" % (written, want)
+            out.append((label, announced, written, prob))
+    return out
+
+
 def rule_count(ctx):
+    """decided by abstract execution (count_scenarios); the reading of the source's shape below is the fallback"""
+    fn = ctx.repo.method(ENC, "WriteEncoder", "writeInternal")
+    w = where(ENC, "WriteEncoder.writeInternal", fn.lineno)
+    try:
+        sc = count_scenarios(ctx)
+    except Exception:       # noqa: the structural reading decides instead
+        sc = None
+    if sc is None:
+        return rule_count_structural(ctx)
+    for label, announced, written, prob in sc:
+        ctx.check("C01.count", prob is None, w, "node with " + label, prob or "", "header announces %s item(s), %s written" % (announced, written))
+
+
+def rule_count_structural(ctx):
     """the node's list header announces exactly the items that are written: every optional item (content, child list) is
     counted under the same condition under which it is written; attributes count two items each and are written as two"""
     fn = ctx.repo.method(ENC, "WriteEncoder", "writeInternal")
